@@ -53,7 +53,7 @@ CTX = Ctx()
 
 
 def lift1(f, a):
-    return Vec(CTX.per_class(i, f, x) for i, x in enumerate(a.v)) if isinstance(a, Vec) else f(a)
+    return Vec((CTX.per_class(i, f, x) for i, x in enumerate(a.v)), fresh=a.fresh, aligned=a.aligned) if isinstance(a, Vec) else f(a)
 
 
 def lift2(f, a, b):
@@ -62,7 +62,9 @@ def lift2(f, a, b):
     bv = b.v if isinstance(b, Vec) else [b] * n
     if len(av) != len(bv):
         raise Undecided("vector length mismatch")
-    return Vec(CTX.per_class(i, f, x, y) for i, (x, y) in enumerate(zip(av, bv)))
+    return Vec((CTX.per_class(i, f, x, y) for i, (x, y) in enumerate(zip(av, bv))),
+               fresh=(isinstance(a, Vec) and a.fresh) or (isinstance(b, Vec) and b.fresh),
+               aligned=(isinstance(a, Vec) and a.aligned) or (isinstance(b, Vec) and b.aligned))
 
 
 def bcast(v, n):
